@@ -11,11 +11,12 @@ import (
 )
 
 // CollectorCase: one case of a collector's type switch.
-//   Records : each record is the list of argument paths (field chains from the case variable; ranging over a
-//             slice does not add a path element) of `m[<chain>] = true` / `addTable(<chain>)` / `addColumn(<c>, <c>)`
-//   Guards  : source text of the innermost `if` around each record ("" when unguarded)
-//   Descend : chains handed to collectFromExpression
-//   NodeRec : chains handed to collectFromNode (explicit recursion into a child node)
+//
+//	Records : each record is the list of argument paths (field chains from the case variable; ranging over a
+//	          slice does not add a path element) of `m[<chain>] = true` / `addTable(<chain>)` / `addColumn(<c>, <c>)`
+//	Guards  : source text of the innermost `if` around each record ("" when unguarded)
+//	Descend : chains handed to collectFromExpression
+//	NodeRec : chains handed to collectFromNode (explicit recursion into a child node)
 type CollectorCase struct {
 	Type    string       `json:"type"`
 	Records [][][]string `json:"records"`
